@@ -164,6 +164,28 @@ def gen_literal_case(rng, sem):
         split = None
     return dict(logic=sem.name, kind=kind, nodes=nodes, split=split, order_seed=rng.choice((0, rng.getrandbits(32))))
 
+def literal_case_count(sem):
+    uni = 2 if sem.classical else 4
+    return len(base_sentences(sem)) * (2 ** uni - 1)
+
+def enum_literal_case(rng, sem, e):
+    """e-th member of the enumeration (base sentence x non-empty subset of the literal constraints
+    at one world); arrival order, world and fork point are seeded."""
+    bases = base_sentences(sem)
+    kind, s = bases[e % len(bases)]
+    w = rng.choice((0, 0, 1, 2)) if sem.modal else None
+    uni = [(neg, d) for neg in (False, True) for d in ((None,) if sem.classical else (True, False))]
+    mask = (e // len(bases)) % (2 ** len(uni) - 1) + 1
+    nodes = []
+    for i, (neg, d) in enumerate(uni):
+        if mask >> i & 1:
+            nodes.append([lexgen.to_json(('O', 'Negation', (s,)) if neg else s), d, w])
+    rng.shuffle(nodes)
+    split = rng.randrange(1, len(nodes) + 1) if rng.random() < 0.3 else None
+    if split is not None and not satisfiable(sem, nodes[:split])[0]:
+        split = None
+    return dict(logic=sem.name, kind=kind, nodes=nodes, split=split, order_seed=rng.choice((0, rng.getrandbits(32))))
+
 def satisfiable(sem, nodes):
     """R1: is there, per (base sentence, world), a value meeting every constraint? Classical
     self-identity / existence literals are judged by their fixed values."""
@@ -217,6 +239,9 @@ def execute_literals(spec):
     for i, item in enumerate(nodes):
         if split is not None and i == split:
             target = tab.branch(b)            # fork: the rest arrives on the copy only
+            # like a real fork, the parent side gets a node of its own (an unrelated letter), so
+            # that no branch is a strict prefix of two others (the tree builder assumes that)
+            add(b, [lexgen.to_json(('A', 4, 7)), None if sem.classical else True, nodes[0][2]])
         add(target, item)
     try:
         tab.build()
